@@ -240,6 +240,30 @@ def der_cases(W, r, n):
         out.append((line, dict(chain=chain, anchors=anchors, crls=crls, has_absent=has_absent)))
     return out
 
+CRIT_OCTETS = [0xff, 0x01, 0x80, 0x7f, 0xfe, 0x00]
+OID_UNKNOWN, OID_NC, OID_EKU = bytes([0x55, 0x1d, 99]), bytes([0x55, 0x1d, 30]), bytes([0x55, 0x1d, 37])
+EKU_CODESIGN_ONLY = bytes.fromhex("300a06082b06010505070303")
+NAME_CONSTRAINTS = bytes.fromhex("300ba00930078205612e636f6d")
+
+def crit_cases(W):
+    """DER level, no CRLs: the `critical` BOOLEAN of an extension in every spelling of TRUE (any non-zero content octet - BER,
+    the parser's own reading for basicConstraints cA, OpenSSL's reading) and explicit FALSE as the control, on the leaf and on
+    an intermediate.  -> (rv line, kind, octet, must_not_be_accepted)"""
+    out = []
+    H = bytes.fromhex
+    inter0 = W.I[H("009a77")]
+    for cb in CRIT_OCTETS:
+        bad = cb != 0
+        def rv(chain): return "rv 20200615 %d 1 0 %s" % (len(chain), " ".join(x.hex() for x in chain + [W.A.der]))
+        out.append((rv([W.leafA0.reissue(W.kA, serial=H("21"), add_ext=[(OID_UNKNOWN, cb, H("04020102"))])]), "leaf-unrecognised", cb, bad))
+        out.append((rv([W.leafA0.reissue(W.kA, serial=H("22"), add_ext=[(OID_NC, cb, NAME_CONSTRAINTS)])]), "leaf-nameConstraints", cb, bad))
+        out.append((rv([W.leafA0.reissue(W.kA, serial=H("23"), ext={OID_EKU: EKU_CODESIGN_ONLY}, crit={OID_EKU: cb})]), "leaf-eku-not-for-tls", cb, bad))
+        i1 = inter0.reissue(W.kA, add_ext=[(OID_UNKNOWN, cb, H("04020102"))])
+        out.append((rv([W.leafI[H("01")].der, i1]), "intermediate-unrecognised", cb, bad))
+        i2 = inter0.reissue(W.kA, add_ext=[(OID_NC, cb, NAME_CONSTRAINTS)])
+        out.append((rv([W.leafI[H("01")].der, i2]), "intermediate-nameConstraints", cb, bad))
+    return out
+
 def meta_from_rv_line(line):
     """rebuild the description of an rv line (corpus / replay) from its DER"""
     t = line.split()
